@@ -1,7 +1,10 @@
 (* C18 - introspection describes the schema truthfully.  Theorems only; proofs in
    SchemaOps/IntrospectProps.v. *)
-From GV Require Import Base.Prelude SchemaOps.Schema SchemaOps.Introspect SchemaOps.IntrospectProps
-  SchemaOps.Client SchemaOps.ClientProps.
+From GV Require Import Base.Prelude.
+From GV Require Import Lang.Ast Lang.Parser Lang.Wf Lang.Printer Lang.PrinterProps Lang.BlockStringProps.
+(* the SchemaOps modules last: their [value], [mkOpts], [full] are the ones meant below *)
+From GV Require Import SchemaOps.Schema SchemaOps.Introspect SchemaOps.IntrospectProps
+  SchemaOps.Client SchemaOps.ClientProps SchemaOps.Literals.
 
 (* Under every combination of the 7 options the result of the standard introspection query equals
    the full-options result minus exactly the switched-off attributes, the deprecated input values
@@ -33,15 +36,38 @@ Print Assumptions C18_prune_full_identity.
    do not apply to a type's kind are empty (introspection cannot carry them). *)
 Theorem C18_client_roundtrip_partial : forall pv parse, (forall v, parse (pv v) = Some v) ->
   forall s, client_ok s -> build_client parse (introspect pv s full) = Some s.
-Proof. exact client_roundtrip. Qed.
+Proof. intros pv parse H s. exact (client_roundtrip pv parse any_value (fun v _ => H v) s). Qed.
 Print Assumptions C18_client_roundtrip_partial.
 
 (* ... and the client schema introspects to the same result again. *)
 Theorem C18_reintrospect_partial : forall pv parse, (forall v, parse (pv v) = Some v) ->
   forall s, client_ok s ->
   exists c, build_client parse (introspect pv s full) = Some c /\ introspect pv c full = introspect pv s full.
-Proof. exact reintrospect. Qed.
+Proof. intros pv parse H s. exact (reintrospect pv parse any_value (fun v _ => H v) s). Qed.
 Print Assumptions C18_reintrospect_partial.
+
+(* The same two theorems WITHOUT the hypothesis on the printer / parser of literals: default values
+   are const-value trees, printed by the printer model of the language (Lang/Printer.pp = print_ast,
+   [print_literal]) and read back by the parser model (Lang/Parser.parse_text EConstValue =
+   parse_const_value, [parse_literal]); their round trip is C08_print_parse_roundtrip.
+   Remaining side conditions ([client_okv literal_ok]):
+     - every default value is a literal that the text can carry ([literal_ok]): its node is a parser
+       output for a const value (enum names are not true/false/null), names are Name lexemes, number
+       texts are Int / Float lexemes, strings consist of Unicode scalar values, leaves in normal form;
+       how a Python default VALUE becomes such a literal (value_to_literal) is the subject of C15/C17,
+       and a block-flagged string literal is outside the value trees of this model;
+     - type references are at most type_depth = 9 wrappers deep;
+     - containers that do not apply to a type's kind are empty (introspection cannot carry them). *)
+Theorem C18_client_roundtrip_literals : forall s, client_okv literal_ok s ->
+  build_client parse_literal (introspect print_literal s full) = Some s.
+Proof. exact (client_roundtrip print_literal parse_literal literal_ok literal_roundtrip). Qed.
+Print Assumptions C18_client_roundtrip_literals.
+
+Theorem C18_reintrospect_literals : forall s, client_okv literal_ok s ->
+  exists c, build_client parse_literal (introspect print_literal s full) = Some c
+            /\ introspect print_literal c full = introspect print_literal s full.
+Proof. exact (reintrospect print_literal parse_literal literal_ok literal_roundtrip). Qed.
+Print Assumptions C18_reintrospect_literals.
 
 (* non-vacuity: a deprecated argument and a deprecated directive disappear, descriptions go *)
 Definition ex_pv (v : value) : list N := match v with VLeaf _ x => x | _ => [] end.
@@ -64,9 +90,10 @@ Proof. repeat split; try reflexivity. intro H. discriminate H. Qed.
 
 Example C18_example_client_ok : client_ok ex_s.
 Proof.
-  unfold client_ok, type_ok, canonical_type, dir_ok, field_ok, arg_ok, ex_s, ex_q; cbn.
+  unfold client_ok, client_okv, type_okv, canonical_type, dir_okv, field_okv, arg_okv, any_value, ex_s, ex_q; cbn.
   repeat match goal with
          | |- _ /\ _ => split
+         | |- True => exact I
          | |- Forall _ _ => constructor; cbn
          | H : ?x <> ?x |- _ => exfalso; apply H; reflexivity
          | |- _ -> _ => intro; cbn in *
@@ -79,3 +106,32 @@ Qed.
 Example C18_example_roundtrip :
   build_client (fun t => Some (VLeaf 1 t)) (introspect ex_pv ex_s full) = Some ex_s.
 Proof. reflexivity. Qed.
+
+(* non-vacuity of the literal instance: a default value with every kind of literal is [literal_ok],
+   prints as print_ast prints it and is read back *)
+Definition ex_lit : value :=
+  VObj [([97], VList [VLeaf 1 [49]; VLeaf 3 [120; 34]; VLeaf 4 [1]; VLeaf 0 []; VLeaf 5 [69]]); ([102], VLeaf 2 [49; 46; 53])].
+
+Example C18_example_literal :
+  literal_ok ex_lit
+  /\ print_literal ex_lit = [123; 32; 97; 58; 32; 91; 49; 44; 32; 34; 120; 92; 34; 34; 44; 32; 116; 114; 117; 101; 44; 32;
+                             110; 117; 108; 108; 44; 32; 69; 93; 44; 32; 102; 58; 32; 49; 46; 53; 32; 125]
+  /\ parse_literal (print_literal ex_lit) = Some ex_lit.
+Proof.
+  split; [|split; vm_compute; reflexivity].
+  unfold literal_ok, ex_lit. split; [cbn; intuition|]. split.
+  - cbn. repeat (constructor || (split; reflexivity)).
+  - cbn. repeat match goal with
+                | |- _ /\ _ => split
+                | |- True => exact I
+                | |- scalars _ => repeat constructor
+                | |- _ = true => vm_compute; reflexivity
+                end.
+Qed.
+
+Example C18_example_client_literals :
+  let q := mkType 1 [81] None [mkField [102] [mkArg [97] (TNamed [81]) (Some ex_lit) None None] (TNamed [81]) None None]
+             [] [] [] [] None false in
+  let s := mkSchema None (Some [81]) None None [q] [] in
+  build_client parse_literal (introspect print_literal s full) = Some s.
+Proof. vm_compute. reflexivity. Qed.
